@@ -200,5 +200,43 @@ def map_async_case(draw, tier="quick"):
     return case
 
 
+@st.composite
+def one_to_many_case(draw, tier="quick"):
+    """a producer that emits several elements per upstream element (flatten, branches re-joined by
+    union, both at once) right above native-coroutine consumers: the awaitables one emission
+    returns must be started in emission order"""
+    nodes = [{"k": "entry", "u": [], "p": {}, "t": "E"}]
+    shape = draw(st.sampled_from(["flatten", "flatten", "union", "both"]))
+    if shape in ("flatten", "both"):
+        if draw(st.booleans()):
+            n = draw(st.integers(2, 3))
+            partial = draw(st.booleans())
+            nodes.append({"k": "sliding_window", "u": [0], "p": {"n": n, "partial": partial},
+                          "t": ["L", "E"] if partial else ["H", ["E"] * n]})
+        else:
+            nodes.append({"k": "map", "u": [0], "p": {"f": "pair"}, "t": ["H", ["E", "E"]]})
+        nodes.append({"k": "flatten", "u": [len(nodes) - 1], "p": {}, "t": "E"})
+    top = len(nodes) - 1
+    if shape in ("union", "both"):
+        a = len(nodes)
+        nodes.append({"k": "map", "u": [top], "p": {"f": "inc"}, "t": "E"})
+        nodes.append({"k": "map", "u": [top], "p": {"f": "dbl"}, "t": "E"})
+        ups = [a, a + 1] + ([top] if draw(st.booleans()) else [])
+        nodes.append({"k": "union", "u": ups, "p": {}, "t": "E"})
+        top = len(nodes) - 1
+    for _ in range(draw(st.integers(0, 2))):     # levels of plain forwarding
+        nodes.append({"k": "map", "u": [top], "p": {"f": "inc"}, "t": "E"})
+        top = len(nodes) - 1
+    nodes.append({"k": "sink", "u": [top], "p": {}, "t": None})
+    cm = {str(len(nodes) - 1): draw(st.sampled_from(["coro", "coro", "fut"]))}
+    if draw(st.booleans()):
+        nodes.append({"k": "sink", "u": [top], "p": {}, "t": None})
+        cm[str(len(nodes) - 1)] = draw(st.sampled_from(["coro", "sync"]))
+    spec = {"nodes": nodes, "fb": None}
+    acts = draw(schedule.actions_strategy(spec, max_actions=20))
+    return {"spec": spec, "cmodes": cm, "actions": acts}
+
+
 PARTS = [Part("schedules", case_strategy, execute, quick=1600, thorough=8000),
+         Part("one-to-many-above-coroutines", one_to_many_case, execute, quick=300, thorough=3000),
          Part("map_async-focus", map_async_case, execute, quick=800, thorough=6000)]
